@@ -1861,7 +1861,21 @@ def _k_listbox_pending_stale(sub, case, v):
     return tail in (["set_focus"], ["set_focus", "focus"]) and v.clause.startswith("exception:IndexError@")
 
 
+def _k_mouse_below_short_column(sub, case, v):
+    """Columns.mouse_event hands an event below a short flow column on to that column's widget (row >= its
+    rows); a Frame without footer reached that way takes the row for 'within footer'.  Only this symptom: the
+    AttributeError on the missing footer, raised in Frame.mouse_event, reached through nested mouse_event calls,
+    in a history that contains a mouse press."""
+    return (
+        v.clause == "exception:AttributeError@widget/frame.py:mouse_event"
+        and "'NoneType' object has no attribute 'selectable'" in v.message
+        and "mouse_event>mouse_event" in v.message
+        and any(op and op[0] == "click" for op in case.get("ops", []))
+    )
+
+
 KNOWN = {
+    "C08-columns-mouse-below-short-column": _k_mouse_below_short_column,
     "C08-listbox-pending-focus-stale": _k_listbox_pending_stale,
     "C08-empty-gridflow-cursor": _k_empty_gridflow,
     "C08-empty-columns-input": _k_empty_columns,
